@@ -1,4 +1,5 @@
 import RedisEmu.Random
+import RedisEmu.MWakeRun
 import RedisEmu.Exec
 import RedisEmu.Glob
 import RedisEmu.Dict
@@ -338,6 +339,7 @@ def step (d : DState) (line : String) : DState × String :=
   match words line with
   | ["Q", m] => ({ d with q := if m == "none" then Quirks.none else Quirks.current }, "ok")
   | ["R"] => ({ d with st := State.init, memo := {}, slack := 0 }, "ok")
+  | "MW" :: keys :: acts => (d, runScenario acts (parseNatList keys))
   | ["N", conn, cid] =>
     match conn.toNat?, cid.toInt? with
     | some c, some i => ({ d with st := d.st.connect c i }, "ok")
